@@ -162,6 +162,8 @@ def model_op(op):
         return (name, pairs)
     if name in ('update_self', 'ior_self', 'iter_hold'):
         return ('noop',)
+    if name == 'update_rmw':
+        return ('update_rmw', [dk(k) for k in op[1]], op[2])
     if name == 'update_bad':
         if len(op) > 2 and op[2] == 'mapping_raises':
             return ('update_bad', list(dict(dpairs(op[1])).items()))      # a mapping has each key once
@@ -315,6 +317,8 @@ def exec_op(c, op, ctx):
             return ('ok', None if r is c else 'ior-returned-another-object'), None
         if name == 'in':
             return ('ok', dk(op[1]) in c), None
+        if name == 'repr':
+            return ('ok', type(repr(c)).__name__), None
         if name == 'len':
             return ('ok', len(c)), None
         if name == 'dict':
@@ -333,6 +337,10 @@ def exec_op(c, op, ctx):
             it = iter(c)
             next(it, None)
             ctx.kept_iterators.append(it)
+            return ('ok', None), None
+        if name == 'update_rmw':
+            tag = op[2]
+            c.update((dk(k), '%s>%s' % (c.get(dk(k), 'none'), tag)) for k in op[1])
             return ('ok', None), None
         if name == 'update_bad':
             # a source that fails part-way: like dict.update, the pairs produced before the failure are stored
